@@ -329,8 +329,11 @@ def x_alias(ctx):
         not has_call(a, 'if') and has_call(F.returns(au), 'add_argument')
     ctx.ob(R, 'add_user_argument|x-spelling-for-every-name', ok, au.node,
            'the --x- alias is not added for every name')
+    # the literal, or a name of a module-level constant holding it
     xs = [n for n in ast.walk(au.node)
-          if isinstance(n, ast.Constant) and n.value == '--x-']
+          if isinstance(n, ast.Constant) and n.value == '--x-' or
+          isinstance(n, ast.Name) and isinstance(n.ctx, ast.Load) and
+          const_eval(repo, au.module, n) == '--x-']
     every = False
     for n in xs:
         p = getattr(n, '_parent', None)
